@@ -85,12 +85,69 @@ def nontrivial(sid, f, a):
     return int(f["P"][3:f["P"].index("=")]) < end
 
 
+def derive_corpus(ctx):
+    """the same statement on parsers the REAL generator emits (derive corpus): the kind of the rule decides whether a trailing
+    skip is made (generator: the `ignored` type handed to rule!), and the skip is pest's implicit skip -- computed here by the
+    PEG spec (Model/PegSpec.v p_skip), independently of the typed Skipped type"""
+    from .. import gencore, dcorp
+    dgs, run = gencore.corpus_run(ctx.tier)
+    by = {g.name: g for g in dgs}
+    gencore.report_anomalies(ctx)
+    n = bad = 0
+    reported = set()
+    for a, b, x, aa, pe, gg in dcorp.records_pe(run):
+        sid, form, hx, ia, ib, f = rtcat.split_line(a)
+        if "FP" not in f or gg is None or gg.sk is None:
+            continue
+        g = by[sid.split(".")[0]]
+        rn = g.rules[int(sid.split(".")[1][1:])]
+        if gencore.ws_variant_env(g) is not None:
+            continue          # known class WsNonAtomic: the typed skip itself may differ from pest's there (C01/C07)
+        p, fp, fc = f["P"], f["FP"], f["FC"]
+        s = bytes.fromhex(hx) if hx != "-" else b""
+        end = len(s)
+        n += 1
+        why = None
+        if not p.startswith("ok@"):
+            if fp.startswith("ok"):
+                why = "full parse succeeds although the prefix parse fails"
+        else:
+            off = int(p[3:p.index("=")])
+            atomic = g.kinds[rn] in ("atomic", "compound")
+            if atomic:
+                expect = off == end
+            elif gg.sk.isdigit():
+                expect = int(gg.sk) == end
+            else:
+                expect = None
+            if expect is True and not fp.startswith("ok="):
+                why = "prefix parse ends at %d and the rest is %s, but try_parse rejects: %s" % (off, "empty" if atomic else "skippable up to the end (pest's implicit skip reaches %s)" % gg.sk, fp[:80])
+            elif expect is True and not fc.startswith("ok"):
+                why = "try_check rejects although the prefix parse ends at %d and the rest is skippable" % off
+            elif expect is False and fp.startswith("ok"):
+                why = "try_parse reports success with unread input (prefix parse ends at %d, implicit skip reaches %s of %d)" % (off, gg.sk, end)
+            elif expect is False and fc.startswith("ok"):
+                why = "try_check reports success with unread input (prefix parse ends at %d of %d)" % (off, end)
+            elif expect is not None and off < end:
+                ctx.nontrivial.add((sid, hx))
+        if why:
+            bad += 1
+            if (g.name, rn) not in reported and len(reported) < 5:
+                reported.add((g.name, rn))
+                ctx.violation("full parse off its spec (derived parser, rule %s of kind %s): %s" % (rn, g.kinds[rn], why),
+                              {"grammar": g.text, "rule": rn, "input_hex": hx, "impl": a, "model": b, "spec_skip_reaches": gg.sk})
+    ctx.evaluations += n
+    ctx.coverage["derive_corpus_cases"] = n
+    ctx.coverage["derive_corpus_failures"] = bad
+
+
 def check(ctx):
     ok = check_property_proofs(ctx, "C04")
     if not ok:
         ctx.violation("proof obligation for C04 no longer checks", {"broken": [n for n, o, _ in ctx.obligations if not o]}, found_input=False)
     envs, run = core.core_run(ctx.tier)
     core.scan(ctx, envs, run, ("misc", "uni"), make_t3(envs), nontrivial, "full parse off its spec")
+    derive_corpus(ctx)
     ctx.rule = ("rule structs of all five kinds + EOI (misc and uni families) x all strings of the family incl. trailing skippable text "
                 "and text that only looks skippable (unterminated '#' comment) x all three input forms; try_parse / try_check verdict "
                 "and tree vs try_parse_partial + an independent trailing-skip computation; non-trivial = prefix parse succeeded "
